@@ -3,6 +3,7 @@
   ONLY property theorems.
 -/
 import Abnf.RuleResult
+import Abnf.DerivCheck
 namespace Abnf.C03
 
 /-- Every match offered by the match-listing API for rule `r` is one tree, rooted at a node named
@@ -56,6 +57,21 @@ theorem derivation_is_faithful (G : Grammar) (s : Src) (e : Expr) (i j : Nat) (n
     i ≤ j ∧ j ≤ s.length ∧ Tree.tiles s ns i = some j ∧ Tree.values ns = (s.drop i).take (j - i) :=
   let f := derives_faithful h hi
   ⟨f.le, f.bound, f.tiles, f.text⟩
+
+/-- **A tree that the executable checker accepts is a faithful derivation** - whoever built it.  `./check C03` sends the
+trees that the REAL code lists (`Rule.lparse`, `Rule.parse`) through `checkTree` in the compiled driver, so for every
+sampled request the statement of C03 is established for the code's own tree by a verified function, not by comparison
+with the model's tree: root named after the rule, children a legal expansion (`Derives`) of its definition, leaves tile
+`s[i:j]` with exact offsets / lengths / text, value = slice. -/
+theorem checked_tree_is_faithful_derivation (G : Grammar) (s : Src) (fuel r i : Nat) (t : Tree) (j : Nat)
+    (hi : i ≤ s.length) (h : checkTree G s fuel r i t j = true) :
+    ∃ info d ns, G[r]? = some info ∧ info.defn = some d ∧ t = .node info.name ns ∧
+      Derives G s d i ns j ∧ i ≤ j ∧ j ≤ s.length ∧ Tree.tiles s [t] i = some j ∧ t.value = (s.drop i).take (j - i) := by
+  have hd := checkTree_sound h
+  have hf := derivation_is_faithful G s (.ref r) i j [t] hd hi
+  cases hd with
+  | ref hg hdf hder =>
+    exact ⟨_, _, _, hg, hdf, rfl, hder, hf.1, hf.2.1, hf.2.2.1, by simpa [Tree.values] using hf.2.2.2⟩
 
 example :
     let G : Grammar := #[⟨"r", some (.cat [.lit [97] false, .ref 1]), none⟩, ⟨"q", some (.rep 0 0 (some 1) (.range 65 66)), none⟩]
